@@ -70,6 +70,9 @@ pub struct DrvState {
     pub spurious_budget: u32,
     pub clock_budget: u32,
     pub cancel_budget: u32,
+    /// steps left of the "hot window" behind a delivery: application actions (start an operation, cancel
+    /// one) are placed densely between the task polls that process what was delivered
+    pub hot_left: u32,
 }
 
 pub struct SimDriver {
@@ -103,6 +106,7 @@ impl SimDriver {
                 spurious_budget: 8,
                 clock_budget: 3,
                 cancel_budget: 4,
+                hot_left: 0,
             }),
         }
     }
@@ -323,12 +327,13 @@ impl SimDriver {
                     acts.push((Act::GateRead(g.id), 20));
                 }
             }
+            let hot = if st.hot_left > 0 && plan.p_cancel > 0 { 4 } else { 1 };
             for (i, s) in self.w.senders.borrow().iter().enumerate() {
                 if s.waiting && !s.go {
-                    acts.push((Act::AppGo(i), 20));
+                    acts.push((Act::AppGo(i), 20 * hot));
                 }
                 if s.busy && !s.waiting && plan.p_cancel > 0 && st.cancel_budget > 0 {
-                    acts.push((Act::AppCancel(i), plan.p_cancel));
+                    acts.push((Act::AppCancel(i), plan.p_cancel * hot));
                 }
             }
             if plan.faults.p_clock_stall > 0 && st.clock_budget > 0 {
@@ -387,6 +392,7 @@ impl SimDriver {
                     self.w.fault(c, "frag", n as u64);
                 }
                 self.w.ev(Ev::Deliver { conn: c, n });
+                self.st.borrow_mut().hot_left = 6;
                 if let Some((j, rst)) = cut
                     && wire.0.borrow().delivered_total >= j as usize
                 {
@@ -753,7 +759,13 @@ impl Driver for SimDriver {
             } else if consec >= 61 {
                 true
             } else {
-                self.w.ch.borrow_mut().chance(plan.p_ext, 1000)
+                let hot = {
+                    let mut st = self.st.borrow_mut();
+                    let h = st.hot_left > 0 && plan.p_cancel > 0;
+                    st.hot_left = st.hot_left.saturating_sub(1);
+                    h
+                };
+                self.w.ch.borrow_mut().chance(if hot { plan.p_ext.max(500) } else { plan.p_ext }, 1000)
             };
             self.st.borrow_mut().consec_polls = if take_ext { 0 } else { consec + 1 };
 
